@@ -6,7 +6,11 @@ SmartTCPServer (127.0.0.1, backing transport chrooted to the twin, as `brz serve
 SmartTCPServer_for_testing do).  After every operation the returned values (URLs and lock tokens normalised)
 or the classes of the raised errors must be equal; at the end branch tip, tags, parent, config values, lock
 status, every revision's testaments, the key sets and Repository.check() are read LOCALLY from both twins
-and must be equal (and check() clean).  Three server modes: all verbs, a random subset of newer verbs removed
+and must be equal (and check() clean).  After every operation the lock directories held on disk are compared too (every handle
+is unlocked between operations).  Histories of pack-based formats may carry a ghost that another repository can fill (aimed
+fetches with / without find_ghosts); every program contains one episode with a write lock left behind on disk by a third party
+(branch or repository lock) against which the actor under test locks / writes, followed by a write that only needs the
+repository.  Formats include knit repositories (physical repository lock).  Three server modes: all verbs, a random subset of newer verbs removed
 from the request registry (client-side fallbacks to older verbs / VFS), and VFS verbs disabled
 (BRZ_NO_SMART_VFS, as the test-suite does).
 """
@@ -15,7 +19,7 @@ import shutil
 
 from vf import gen
 from vf.checks import _c32_lib as L
-from vf.observe import check_repo, snap_branch, snap_disk, snap_repo
+from vf.observe import snap_branch, snap_disk, snap_repo
 
 ID = "C32"
 LEVEL = "exploration"
@@ -23,10 +27,14 @@ TECHNIQUE = ("differential twin execution (local paths vs in-process bzr:// Smar
              "operation program; per-op result/error-class equality + final local snapshots (branch, repo, check)")
 LEVEL_TEXT = ("held on the sampled programs: per-op results and final locally-read states were equal between a local "
               "and a smart-server execution, for the operation kinds, formats and server modes listed in the histogram")
-RULE = ("case = one history (format x 2-3 branches x merges x tags) copied to twins + one program of N ops "
+RULE = ("case = one history (format x 2-3 branches x merges x tags, for pack formats in 45% a ghost of one served repository that "
+        "another repository holds) copied to twins + one program of N ops "
         "(quick 10-14, thorough 14-22) generated online from the local twin's state over {commit via lightweight "
         "checkout(+update/merge), fetch, pull, push, push to new location, sprout, tag set/delete/read, config "
-        "set/get/remove (stack and old API), lock episodes with tokens (hand-over, contention, bogus token), "
+        "set/get/remove (stack and old API), lock episodes with tokens (hand-over, contention, bogus token), stale-lock episodes "
+        "(a branch / repository write lock left on disk by a local third party; lock_write, bogus token, lock_read, set_tag, "
+        "set_last_revision_info, repository lock, repository write attempted through the location; lock state on disk read after each "
+        "attempt), fetch with and without find_ghosts (one aimed at a fillable ghost when the history has one), "
         "get_parent_map, get_revision(s), iter_revisions, revision_tree(s), iter_files_bytes, get_stacked_on_url, "
         "set_last_revision_info, generate_revision_history, all_revision_ids, gather_stats, signatures (add / has / "
         "text / aborted write group), heads, get_rev_id_for_revno, revision delta, pack, reopen} x server mode "
@@ -44,6 +52,10 @@ FLOORS = {
     "oracle_final_config": 20,
     "oracle_final_checkout": 4,
     "remote_ops": 150,
+    "oracle_disk_locks": 200,
+    "oracle_stale_lock": 20,
+    "stale_branch_lock_with_physical_repository_lock": 3,
+    "fetch_filled_a_ghost_locally": 3,
     "server_stopped_clean": 16,
 }
 EXHAUSTIVE = {"quick": False, "thorough": False}
@@ -58,6 +70,13 @@ ASSUMPTIONS = [
     "in no-VFS mode a program ends at the first operation that needs a VFS verb (counted); the final comparison is then made "
     "only if that operation was read-only",
     "verbs removed in 'verbs-off' mode are only those for which the client documents a fallback (UnknownSmartMethod handler)",
+    "a fetch that fills a ghost makes check() complain about the per-file parents of the revision that referenced the ghost (on both "
+    "twins alike): those complaints are not counted; between two knit repositories a local fetch ignores find_ghosts=False "
+    "(InterKnitRepo always searches the whole ancestry) while the fetch into a served repository honours it - the parameter leaves "
+    "that open, so fillable ghosts are planted in pack-based formats only",
+    "the stale lock of a stale-lock episode is taken and finally released through local paths on both twins (a third party on the "
+    "server machine); only the attempts in between go through the location under test; resuming the stale lock with its token "
+    "through the location is not attempted (formats with a physical repository lock: known hand-over finding)",
     "a socket timeout or a server thread that does not join is counted as inconclusive for that case, never a verdict",
     "branch.conf is cached per Branch object for its whole life (locally and remotely): all config traffic of a branch goes "
     "through one dedicated handle and the other handles are reopened after a config / parent change",
@@ -67,8 +86,11 @@ ASSUMPTIONS = [
     "for linear ancestries (it is the last element of an unordered ancestry walk otherwise)",
 ]
 
-FORMATS_Q = ["2a", "2a", "2a", "pack-0.92", "1.14-rich-root", "1.9"]
-FORMATS_T = FORMATS_Q + ["rich-root-pack", "knit", "development-colo", "1.14"]
+# ("dirstate-tags", "knit", "rich-root": knit repositories, the formats whose repository has a physical lock of its own)
+FORMATS_Q = ["2a", "2a", "2a", "pack-0.92", "1.14-rich-root", "1.9", "dirstate-tags", "knit"]
+FORMATS_T = FORMATS_Q + ["rich-root-pack", "knit", "development-colo", "1.14", "rich-root", "dirstate-tags"]
+REPO_LOCK_FORMATS = ("knit", "dirstate-tags", "rich-root")
+MODES = ["plain", "verbs-off", "plain", "novfs"]
 
 # (Branch.set_parent_location / Branch.get_parent are left enabled: with only one of them the value written under a write lock
 # sits in one object's config cache (verb side or VFS side) until unlock and the other path still sees the old one.)
@@ -136,6 +158,7 @@ class View:
             except Exception:
                 tags = {}
             d = {"tip": b.last_revision_info(), "revs": revs, "pm": {k: tuple(v) for k, v in pm.items()}, "tags": tags}
+            d["ghosts"] = sorted({p for v in pm.values() for p in v if p not in pm and p != b"null:"})
             try:
                 nb = b.controldir.open_branch(ignore_fallbacks=True)
                 with nb.lock_read():
@@ -153,6 +176,19 @@ class View:
             d["lefthand"] = lh
         self._c[name] = d
         return d
+
+    def fillable(self):
+        """[(target, source, ghost, referencing revisions of the target that the source holds too)]: the target's repository
+        has a revision whose parent is absent (a ghost) and the source's repository holds that parent."""
+        out = []
+        for t in self.names:
+            ti = self.info(t)
+            for g in ti["ghosts"]:
+                refs = [r for r, ps in sorted(ti["pm"].items()) if g in ps]
+                for s in self.names:
+                    if s != t and g in self.info(s)["pm"]:
+                        out.append((t, s, g, [r for r in refs if r in self.info(s)["pm"]]))
+        return out
 
     def revno(self, name, rev):
         """distance to null along left-hand parents, or None (ghost on the way / absent)."""
@@ -179,7 +215,30 @@ def pick_rev(rng, view, name, absent=0.12):
     return rng.choice(inf["revs"])
 
 
-def gen_next(rng, view, tier, counters):
+def gen_ghost_fetch(rng, view):
+    """A fetch aimed at a ghost of the target that the source can fill: with find_ghosts the revision behind the common
+    revision has to arrive, without it (and a revision the walk to common revisions stops above) it must not."""
+    pairs = view.fillable()
+    served = [p for p in pairs if view.side.is_served(p[0])]
+    if served and rng.random() < 0.8:
+        pairs = served
+    if not pairs:
+        return None
+    t, s, g, refs = rng.choice(pairs)
+    sinf = view.info(s)
+    cands = list(refs) + [sinf["tip"][1]] if sinf["tip"][1] != b"null:" else list(refs)
+    r = rng.random()
+    if cands and r < 0.8:
+        rev = rng.choice(cands)
+    elif r < 0.9:
+        rev = g
+    else:
+        rev = None
+    return {"op": "fetch", "slot": rng.choice(["A", "A", "B"]), "into": t, "from": s, "rev": rev, "fg": rng.random() < 0.7,
+            "aimed": True}
+
+
+def gen_next(rng, view, tier, counters, forced=None):
     """One op dict, chosen from the local twin's current state."""
     served = view.served()
     allnames = view.names
@@ -190,15 +249,17 @@ def gen_next(rng, view, tier, counters):
         "has_sig": 3, "sig_text": 1, "heads": 2, "revid_for_revno": 2, "delta": 1, "reopen": 2,
         "tag_set": 6, "tag_del": 3, "conf_set": 8, "conf_remove": 1, "parent_set": 2, "push_loc_set": 1, "set_lri": 4,
         "gen_rh": 2, "lock_episode": 4, "sig_add": 3, "wg_abort": 1, "pack": 2, "fetch": 5, "pull": 5, "push": 5,
-        "push_new": 2, "sprout": 1, "commit": 8,
+        "push_new": 2, "sprout": 1, "commit": 8, "stale_lock": 3, "ghost_fetch": 2,
     }
     kinds = sorted(weights)
-    k = rng.choices(kinds, [weights[x] for x in kinds])[0]
+    k = forced or rng.choices(kinds, [weights[x] for x in kinds])[0]
+    if k == "ghost_fetch":
+        return gen_ghost_fetch(rng, view)
     if counters.get("fmt") == "knit" and (k in L.CONFIG_OPS or k == "parent_set"):
         # format-5 branches keep parent / push location in their own files with their own local quirks
         # (set_parent(None) without a parent file raises NoSuchFile locally); not the smart server's business
         return None
-    b = rng.choice(served) if (rng.random() < 0.9 or k in ("commit", "lock_episode")) else rng.choice(allnames)
+    b = rng.choice(served) if (rng.random() < 0.9 or k in ("commit", "lock_episode", "stale_lock")) else rng.choice(allnames)
     slot = rng.choice(["A", "A", "B"])
     op = {"op": k, "b": b, "slot": slot}
     inf = view.info(b)
@@ -248,6 +309,10 @@ def gen_next(rng, view, tier, counters):
             op["rev"], op["revno"] = b"null:", 0
     elif k == "lock_episode":
         op["variant"] = rng.choice(["handover", "handover", "contend", "mismatch"])
+        if counters.get("fmt") in REPO_LOCK_FORMATS and op["variant"] != "contend" and not counters.get("last_op"):
+            # a token hand-over strands the repository lock of these formats (known finding, ends the program): kept for the
+            # program's last operation only, so that the operations before it are still judged
+            op["variant"] = "contend"
         if rng.random() < 0.6:
             op["tag"] = rng.choice(TAGS)
             op["rev"] = pick_rev(rng, view, b, absent=0.0)
@@ -256,6 +321,32 @@ def gen_next(rng, view, tier, counters):
             if cands:
                 r = rng.choice(cands)
                 op["lri"] = (view.revno(b, r), r)
+    elif k == "stale_lock":
+        repo_lock = counters.get("fmt") in REPO_LOCK_FORMATS
+        op["what"] = "repo" if (repo_lock and rng.random() < 0.25) else "branch"
+        pool = ["lock_write", "lock_write", "lock_write_bogus", "lock_read", "tag_set", "set_lri", "repo_lock"]
+        atts = [rng.choice(pool) for _ in range(rng.randint(1, 3))]
+        if "lock_write" not in atts and rng.random() < 0.7:
+            atts.insert(rng.randint(0, len(atts)), "lock_write")
+        if counters.get("fmt") == "knit":
+            atts = [a for a in atts if a != "tag_set"] or ["lock_write"]
+        op["tag"] = rng.choice(TAGS)
+        op["rev"] = pick_rev(rng, view, b, absent=0.0)
+        cands = [r for r in inf["revs"] if view.revno(b, r) is not None]
+        if cands:
+            r = rng.choice(cands)
+            op["lri"] = (view.revno(b, r), r)
+        else:
+            atts = [a for a in atts if a != "set_lri"] or ["lock_write"]
+        if inf["own_revs"]:
+            # the follow-up write: needs the repository's write lock, not the branch's
+            counters["sig"] += 1
+            op["sigrev"] = rng.choice(inf["own_revs"])
+            op["text"] = b"-----BEGIN PSEUDO-SIGNED MESSAGE-----\nstale %d\n" % counters["sig"]
+            atts.append("repo_write")
+        else:
+            atts.append("repo_lock")
+        op["attempts"] = atts
     elif k == "parent_map":
         keys = [pick_rev(rng, view, b, absent=0.25) for _ in range(rng.randint(1, 5))]
         op["keys"] = sorted(set(keys))
@@ -296,7 +387,8 @@ def gen_next(rng, view, tier, counters):
             src, tgt = b, other
         sinf = view.info(src)
         if k == "fetch":
-            op.update({"into": tgt, "from": src, "rev": rng.choice(sinf["revs"] + [None]) if sinf["revs"] else None})
+            op.update({"into": tgt, "from": src, "rev": rng.choice(sinf["revs"] + [None]) if sinf["revs"] else None,
+                       "fg": rng.random() < 0.35})
         else:
             stop = None
             if rng.random() < 0.3 and sinf["lefthand"]:
@@ -358,7 +450,30 @@ def op_json(op):
 
 # ------------------------------------------------------------------ final local comparison
 
-def final_state(side, names, conf_names):
+def check_repo_but(repo, ghost_refs):
+    """observe.check_repo, minus the per-file parent complaints about revisions that were committed while one of their parents
+    was a ghost: once that parent arrives (a fetch that fills the ghost, locally just as through the server) check() compares
+    the per-file parents recorded at commit time with a revision graph the committer never saw."""
+    problems = []
+    try:
+        with repo.lock_read():
+            res = repo.check(None, check_repo=True)
+    except Exception as e:
+        return ["check raised %r" % (e,)]
+    for attr in ("inconsistent_parents", "unreferenced_versions"):
+        v = getattr(res, attr, None)
+        if v and attr == "inconsistent_parents":
+            v = [x for x in v if not (isinstance(x, tuple) and x and x[0] in ghost_refs)]
+        if v:
+            problems.append("%s=%r" % (attr, sorted(v)[:5] if hasattr(v, "__iter__") else v))
+    for attr in ("missing_inventory_sha_cnt", "missing_revision_cnt"):
+        v = getattr(res, attr, 0)
+        if v:
+            problems.append("%s=%r" % (attr, v))
+    return problems
+
+
+def final_state(side, names, conf_names, ghost_refs=()):
     """Everything the statement calls observable state, read through fresh LOCAL objects."""
     from breezy.branch import Branch
 
@@ -398,7 +513,7 @@ def final_state(side, names, conf_names):
         d["revisions"] = sorted((r, tuple(v["parents"]), v.get("testament"), v.get("testament3"), v.get("testament_error"))
                                 for r, v in sr["revisions"].items())
         d["keys"] = {k: (v if isinstance(v, str) else [tuple(x) for x in v]) for k, v in sr["keys"].items()}
-        d["check"] = check_repo(b.repository)
+        d["check"] = check_repo_but(b.repository, ghost_refs)
         try:
             with b.repository.lock_read():
                 tk = b.repository.texts.keys()
@@ -432,6 +547,49 @@ def checkout_state(side):
     return out
 
 
+# ------------------------------------------------------------------ workload construction
+
+def plant_fillable_ghost(stage, names, rng):
+    """Gives one served branch T a revision whose second parent R its repository does not hold (a ghost there) while another
+    repository S holds R, and hands that referencing revision to S as well: a walk from S's revisions to the revisions
+    common with T stops above R, only a ghost-finding fetch brings R to T."""
+    from breezy.workingtree import WorkingTree
+
+    served = [n for n in names if not n.startswith("x")]
+    t = rng.choice(served)
+    s = rng.choice([n for n in names if n != t])
+    twt = WorkingTree.open(os.path.join(stage, "srv", t))
+    swt = WorkingTree.open(os.path.join(stage, "ext" if s.startswith("x") else "srv", s))
+    with twt.lock_read():
+        trevs = set(twt.branch.repository.all_revision_ids())
+    with swt.lock_read():
+        cands = sorted(set(swt.branch.repository.all_revision_ids()) - trevs)
+    if not cands or rng.random() < 0.3:
+        gen._uniq[0] = 60000
+        gen.random_delta(rng, swt, gen.Names("quick"), rng.randint(1, 2))
+        swt.commit("filler", rev_id=b"c32-filler-1", timestamp=1551000000, timezone=0, committer="Fill <f@example.com>",
+                   allow_pointless=True)
+        cands.append(b"c32-filler-1")
+    r = rng.choice(cands)
+    gen._uniq[0] = 61000
+    gen.random_delta(rng, twt, gen.Names("quick"), rng.randint(0, 2))
+    twt.add_pending_merge(r)
+    twt.commit("merges a revision held elsewhere", rev_id=b"c32-ghostref-1", timestamp=1552000000, timezone=0,
+               committer="Ref <r@example.com>")
+    swt.branch.repository.fetch(twt.branch.repository, revision_id=b"c32-ghostref-1")
+    if rng.random() < 0.4 and twt.last_revision() != swt.last_revision():
+        # S's branch moves on top of the referencing revision when that is a fast-forward
+        try:
+            swt.pull(twt.branch)
+            gen._uniq[0] = 62000
+            gen.random_delta(rng, swt, gen.Names("quick"), rng.randint(1, 2))
+            swt.commit("on top", rev_id=b"c32-ontop-1", timestamp=1553000000, timezone=0, committer="Fill <f@example.com>",
+                       allow_pointless=True)
+        except Exception:
+            pass
+    return (t, s, r)
+
+
 # ------------------------------------------------------------------ the case
 
 def case(ctx):
@@ -441,8 +599,10 @@ def case(ctx):
 
     rng = ctx.rng
     tier = ctx.tier
-    fmt = rng.choice(FORMATS_Q if tier == "quick" else FORMATS_T)
-    mode = rng.choice(["plain", "plain", "verbs-off", "novfs"])
+    # format x server mode are stratified over the case index (every format meets every mode in each run), the rest is random
+    fmts = FORMATS_Q if tier == "quick" else FORMATS_T
+    fmt = fmts[ctx.index % len(fmts)]
+    mode = MODES[(ctx.index // len(fmts)) % len(MODES)]
     nrevs = rng.randint(3, 7) if tier == "quick" else rng.randint(3, 10)
     try:
         hist = gen.build_history(ctx, rng, fmt=fmt, nrevs=nrevs, nbranches=3, ghosts=(rng.random() < 0.3), merges=True,
@@ -468,6 +628,12 @@ def case(ctx):
             if rng.random() < 0.5 and xwt.branch._format.supports_tags():
                 xwt.branch.tags.set_tag(rng.choice(TAGS), xwt.last_revision())
         names.append("x0")
+        planted = None
+        if rng.random() < 0.45 and fmt not in REPO_LOCK_FORMATS:
+            # (between two knit repositories a local fetch always searches the whole ancestry - InterKnitRepo's
+            # search_missing_revision_ids has no walk-to-common-revisions path - while the fetch into a served repository takes the
+            # generic path that honours find_ghosts=False; the parameter leaves that latitude, so no fillable ghosts there)
+            planted = plant_fillable_ghost(stage, names, rng)
         # served trees have working trees that the server never updates; drop them so both twins agree trivially
         for n in sorted(hist.trees):
             cd = ControlDir.open(os.path.join(stage, "srv", n))
@@ -489,12 +655,20 @@ def case(ctx):
     ctx.info = {"fmt": fmt, "mode": mode, "disabled_verbs": [v.decode() for v in disabled], "hist": hist.log[-40:], "program": []}
     ctx.hist("mode:" + mode)
     ctx.hist("format:" + fmt)
+    # planned operations: every program contains one stale-lock episode, every history with a fillable ghost one aimed fetch
+    plan = {rng.randrange(nops): "stale_lock"}
+    if fmt in REPO_LOCK_FORMATS and rng.random() < 0.35:
+        plan.setdefault(nops - 1, "lock_episode")
+    if planted is not None:
+        ctx.hist("history:fillable-ghost-planted")
+        plan.setdefault(rng.randrange(nops), "ghost_fetch")
     server = None
     lside = rside = None
     stuck = None
     truncated = None
     env_set = False
     problems = []
+    ghost_refs = set()
     lco = rco = {}
     try:
         for v in disabled:
@@ -512,12 +686,18 @@ def case(ctx):
         # (has_signature, gather_stats, get_rev_id_for_revno, revision_id_to_revno ...); stacking belongs to C08.
         counters = {"sig": 0, "new": 0, "commit": 0, "stackable": False, "fmt": fmt}
         conf_used = set()
+        # revisions committed with a ghost parent (in any of the starting repositories)
+        for n in names:
+            inf0 = view.info(n)
+            ghost_refs.update(r for r, ps in inf0["pm"].items() if any(p in inf0["ghosts"] for p in ps))
         done = 0
         guard = 0
         while done < nops and guard < nops * 4:
             guard += 1
             view.invalidate()
-            op = gen_next(rng, view, tier, counters)
+            forced = plan.pop(done, None)
+            counters["last_op"] = done == nops - 1
+            op = gen_next(rng, view, tier, counters, forced=forced)
             if op is None:
                 continue
             ctx.info["program"].append(op_json(op))
@@ -553,6 +733,7 @@ def case(ctx):
             if rres[0] == "err" and rres[1] in L.CONNECTION_LOST and server.timeouts and not server.exceptions:
                 stuck = "op:%s:server dropped an idle connection (client_timeout)" % kind
                 break
+            ghosts_before = view.info(op["into"])["ghosts"] if kind == "fetch" else None
             lres = L.run_op(lside, op)
             done += 1
             if op.get("new"):
@@ -568,9 +749,25 @@ def case(ctx):
                 ctx.hist("push_new:stacked:" + rres[0])
             outcome = lres[0] if lres[0] == "ok" else "err:" + lres[1]
             ctx.hist("outcome:" + outcome)
-            if lres[0] == "err" or rres[0] == "err":
+            if lres[0] == "err" or rres[0] == "err" or kind == "stale_lock":
                 lside.handles.clear()
                 rside.handles.clear()
+            if kind == "stale_lock":
+                ctx.count("oracle_stale_lock")
+                ctx.hist("stale_lock:%s:%s" % (op["what"], "repo-lock-format" if fmt in REPO_LOCK_FORMATS else "pack-format"))
+                if fmt in REPO_LOCK_FORMATS and op["what"] == "branch" and touches_remote:
+                    ctx.count("stale_branch_lock_with_physical_repository_lock")
+                if lres[0] == "ok":
+                    for st in lres[1]:
+                        if st[0] in op["attempts"]:
+                            ctx.hist("stale_lock:%s:%s:%s" % (op["what"], st[0], st[2] if st[1] == "err" else "ok"))
+            if kind == "fetch":
+                ctx.hist("fetch:%s%s" % ("find_ghosts" if op.get("fg") else "plain", ":aimed" if op.get("aimed") else ""))
+                if lres[0] == "ok" and ghosts_before is not None:
+                    filled = [g for g in ghosts_before if g in dict(lres[1][1])]
+                    if filled:
+                        ctx.count("fetch_filled_a_ghost_locally")
+                        ctx.hist("fetch:ghost-filled:%s" % ("find_ghosts" if op.get("fg") else "plain"))
             if kind in ("conf_set", "conf_remove", "push_loc_set", "parent_set"):
                 # other handles of this branch may or may not have loaded branch.conf already: not comparable, reopen them
                 # (the old Config API and set_parent write branch.conf behind the back of the handle's cached store)
@@ -589,6 +786,22 @@ def case(ctx):
                           "local_tb": lres[3] if lres[0] == "err" else None, "remote_tb": rres[3] if rres[0] == "err" else None,
                           "server_exceptions": list(server.exceptions), "server_timeouts": len(server.timeouts)})
                 # the twins may have diverged: nothing after this point can be judged
+                ctx.hist("program-abandoned-after-mismatch")
+                return
+            # every handle is unlocked between operations: a lock directory still held on disk now was left behind
+            ctx.count("oracle_disk_locks")
+            lheld, rheld = L.held_locks(lside), L.held_locks(rside)
+            if lheld:
+                ctx.hist("disk-locks-held-after-op:both-twins" if lheld == rheld else "disk-locks-held-after-op:local")
+            if lheld != rheld:
+                only_r = [x for x in rheld if x not in lheld]
+                only_l = [x for x in lheld if x not in rheld]
+                which = sorted({x.split("/.bzr/")[-1].split("/")[0] for x in only_r + only_l})
+                ctx.fail("disk-locks:%s:%s-lock-left-held:%s" % (kind, "+".join(which), "served-twin" if only_r and not only_l
+                                                                 else "local-twin" if only_l and not only_r else "both"),
+                         "op %d %s (%s, %s): lock directories held on disk after the operation: only on the served twin %r, "
+                         "only on the local twin %r" % (done, kind, fmt, mode, only_r, only_l),
+                         {"op": op_json(op), "local": repr(lres[:3])[:2000], "remote": repr(rres[:3])[:2000]})
                 ctx.hist("program-abandoned-after-mismatch")
                 return
         ctx.distinct("programs", [p["op"] for p in ctx.info["program"]])
@@ -628,14 +841,20 @@ def case(ctx):
         ctx.info["inconclusive"] = str(stuck)[:300]
         if os.environ.get("C32_DEBUG"):
             print("INCONCLUSIVE case %d: %s" % (ctx.index, stuck), flush=True)
+            if os.path.isdir(os.environ["C32_DEBUG"]):
+                import json as _json
+
+                with open(os.path.join(os.environ["C32_DEBUG"], "inconclusive-%d-%d.json" % (ctx.seed, ctx.index)), "w") as fh:
+                    _json.dump({"stuck": str(stuck), "info": ctx.info, "server_exceptions": list(server.exceptions) if server else None},
+                               fh, default=repr)
         return
     if truncated is not None and truncated in L.MUTATING:
         ctx.hist("novfs-truncated-mutating:no-final-compare")
         return
 
     # ---- final comparison, read locally from both twins with fresh objects
-    lf = final_state(lside, names, sorted(conf_used | {"vf_opt"}))
-    rf = final_state(rside, names, sorted(conf_used | {"vf_opt"}))
+    lf = final_state(lside, names, sorted(conf_used | {"vf_opt"}), ghost_refs)
+    rf = final_state(rside, names, sorted(conf_used | {"vf_opt"}), ghost_refs)
     for n in names:
         a, b = lf[n], rf[n]
         served = lside.is_served(n)
